@@ -154,9 +154,17 @@ def rejected_or_agree_cases():
     loop2 = A.stanza("(module (_)* @stmts) @_m ", [A.mut(v("txt"), A.string("ab")), A.forin("s", c("stmts"), [A.scan(v("txt"), ("a", [A.node(v("k"))])),
                                                                                                    A.assign(v("txt"), A.svar(v("s"), "name"))])])
     names = A.stanza("(module (_) @ch) ", [A.let(A.svar(c("ch"), "name"), A.call("node-type", c("ch")))])
+    cases = []
     loop3 = A.stanza("(module (_)* @stmts) @_m ", [A.mut(v("lst"), A.lst(i(1))), A.forin("s", c("stmts"), [A.forin("e", v("lst"), [A.node(v("k"))]),
                                                                                                 A.assign(v("lst"), A.lst(A.svar(v("s"), "flag")))])])
     cases = []
+    # several blocks, each with its own loop; the flags of a later block's statements are defined after the first block was looped over
+    blk_src = 1 + next(j for j, nm in enumerate(A.source_names()) if "s17j_" in nm)
+    defs = A.stanza("(expression_statement) @s ", [A.let(A.svar(c("s"), "flag"), A.true())])
+    bloop = A.stanza("(block (expression_statement)* @stmts) ", [A.node(v("n")), A.mut(v("seen"), A.false()),
+                                                                A.forin("s", c("stmts"), [A.iff(([A.cond("bool", v("seen"))], [A.attrn(v("n"), A.attr("several", A.true()))])),
+                                                                                          A.assign(v("seen"), A.svar(v("s"), "flag"))])])
+    cases += A.both_modes("c02r-blocks", A.file([defs, bloop]), blk_src)
     # (definitions first: in this order strict mode succeeds, so lazy mode must, too)
     for k, st in enumerate([[flags, loop1], [names, loop2], [flags, loop3]]):
         for src in (2, 5, 7):
